@@ -39,12 +39,21 @@ CLAIMED.update({
     'C09': ('Every integer attribute of every meta type symbolic over +-2^40: accepted iff documented, wire layout against an '
             'arithmetic SMF reference, from_bytes and read_meta_message both give back an equal message; denominator symbolic over '
             '320-bit integers; VLQ over +-2^40; payload length of from_bytes symbolic up to 2^21; key table, text boundary lengths.', '4/C09'),
-    'C07': ('Real save -> real load on symbolic files: every ordered pair of 37 message kinds (attributes symbolic, running status '
+    'C07': ('Real save -> real load on symbolic files: every ordered pair of 27 message kinds (attributes symbolic, running status '
             'triggered/broken by the solver), delta times symbolic up to 2^28 (2^35), headers, payload-length boundaries, refusal '
             'cases, and the load-save-load fixed point for every track body of <=5 (thorough 6) arbitrary bytes.', '4/C07'),
     'C08': ('The bytes written by the real save() are decoded by an independent reference SMF decoder (minimal VLQs, legal running '
             'status only, exact chunk lengths, closing FF 2F 00) and must give back the in-memory events; the real loader is run on '
             'reference encodings with symbolic legal alternatives (running status, padded VLQs, long header) incl. debug and clip.', '4/C08'),
+    'C12': ('The real merge_tracks (incl. its list.sort) runs on tracks whose every delta is a symbolic integer (z3 Int sort), so all '
+            'orderings and tie patterns between tracks are chosen by the solver: exactly the non-end_of_track messages, each at its '
+            'source absolute tick, ordered by (time, track, index), one trailing end_of_track, total duration, inputs untouched.', '4/C12'),
+    'C14': ('from_str(str(m)), from_dict(m.dict()), eval(repr(x)) for all message kinds, tracks of length 0..3 and files, with number<->text '
+            'conversion abstracted as an inverse pair so that all attribute values are covered at once; parse_string against an '
+            'independent grammar over a word vocabulary with symbolic integer values; parse_string_stream line accounting.', '4/C14'),
+    'C15': ('copy/freeze/thaw class and equality, None->None, independence under a symbolic assignment on either object, frozen '
+            'immutability, copy(**overrides) with wide symbolic values against a fresh construction (same result or same exception '
+            'class), hash/dict-key behaviour over an attribute menu; for 33 message kinds.', '4/C15'),
 })
 
 PENDING = {}     # id -> reason (not claimed)
